@@ -90,7 +90,9 @@ var c15Unset = []struct {
 	{"contains(u)", func() Stmt { return Pr(S("cu"), CallE(Mem(av(), "contains"), V("u"))) }},
 	{"contains(null)", func() Stmt { return Pr(S("cn"), CallE(Mem(av(), "contains"), &NullLit{})) }},
 	{"length()", func() Stmt { return Pr(S("len"), CallE(Mem(av(), "length"))) }},
-	{"[0] is unknown", func() Stmt { return Pr(S("k0"), &IsExpr{Idx(av(), N("0")), "unknown"}, Bin("==", Idx(av(), N("0")), N("0"))) }},
+	{"[0] is unknown", func() Stmt {
+		return Pr(S("k0"), &IsExpr{Idx(av(), N("0")), "unknown"}, Bin("==", Idx(av(), N("0")), N("0")))
+	}},
 	{"push(u)", func() Stmt { return Ex(CallE(Mem(av(), "push"), V("u"))) }},
 	{"push(1)", func() Stmt { return Ex(CallE(Mem(av(), "push"), N("1"))) }},
 	{"pop() is unknown", func() Stmt { return Pr(S("pop"), &IsExpr{CallE(Mem(av(), "pop")), "unknown"}) }},
@@ -99,9 +101,9 @@ var c15Unset = []struct {
 }
 
 type c15Spec struct {
-	Family string `json:"family"` // single, dual
-	Place  int    `json:"place"`
-	Seq    []int  `json:"seq"`
+	Family string   `json:"family"` // single, dual
+	Place  int      `json:"place"`
+	Seq    []int    `json:"seq"`
 	Names  []string `json:"names,omitempty"`
 }
 
